@@ -184,6 +184,13 @@ def main():  # noqa: PLR0912, PLR0915
             path = write_bounded_replay(prop, m["monitor"], fail)
             violations.append((f"{m['monitor']}: {fail['what']}"[:600], path, ""))
 
+    # ---- the list lemmas behind the loop rules (and the C11 spec-level link), re-checked by Lean
+    lemma_note = check_lemmas() if any(x.startswith("rule:") for x in assumed) or prop == "C11" else None
+    if lemma_note is not None:
+        if lemma_note.startswith("FAILED"):
+            errors.append("lemmas/Rules.lean: " + lemma_note)
+        assumed.add("lemmas/Rules.lean (foreach_congr, fold_congr, filter_keeps, append_keeps, values_of_compound): " + lemma_note)
+
     wall = time.time() - t0
     level = "proof" if (obligations > 0 and obligations == discharged and not undecided and not errors) else "other"
     evidence = {
@@ -249,6 +256,24 @@ def main():  # noqa: PLR0912, PLR0915
     if undecided:
         return 2
     return 0
+
+
+def check_lemmas():
+    """Run core Lean on lemmas/Rules.lean (about 1 s).  The lemmas are the mathematical content of the
+    loop rules, not their implementation: what they cover is stated in DESIGN 11.2."""
+    import shutil
+    import subprocess
+
+    exe = shutil.which("lean")
+    if exe is None:
+        return "NOT re-checked in this run (no `lean` on PATH): assumed"
+    try:
+        r = subprocess.run([exe, os.path.join(HERE, "lemmas", "Rules.lean")], capture_output=True, text=True, timeout=300, check=False)
+    except Exception as e:  # noqa: BLE001
+        return f"NOT re-checked in this run ({type(e).__name__}): assumed"
+    if r.returncode == 0 and "error" not in r.stdout and "sorry" not in r.stdout:
+        return "re-checked by Lean 4 in this run (exit 0, no sorry)"
+    return "FAILED: " + (r.stdout + r.stderr)[-600:]
 
 
 def baseline_has(prop, contract, obligation):
